@@ -385,7 +385,15 @@ func (s *Session) applyContract(st *State, con *Contract, callee *ssa.Function, 
 		}
 	}
 	if con.Flags["maypanic"] && !s.conFlag("maypanic") {
-		s.check(st, "safe.maypanic", s.obl("safe.maypanic", short), TFalse, pos)
+		if s.recoversPanics() {
+			// the callee may panic; this function defers a closure that calls recover(), so the panic
+			// does not leave it (the paths after a recovered panic are not explored: the function then
+			// returns its named results as they are)
+			s.note("panic of " + short + " is contained: " + s.name + " defers a function that recovers")
+			s.check(st, "safe.maypanic", s.obl("safe.maypanic", short), TTrue, pos)
+		} else {
+			s.check(st, "safe.maypanic", s.obl("safe.maypanic", short), TFalse, pos)
+		}
 	}
 	for i, r := range con.Requires {
 		s.check(st, "pre", s.obl("pre("+short+")#"+clauseLabel(r, i), ""), s.evalBool(st, env, r.E, r.Src), pos)
@@ -592,7 +600,7 @@ type keyedTerm struct {
 // loopFrame: the function's own frame condition, restricted to the heap
 // entries the loop may modify, is an (automatic) invariant of every loop.
 func (s *Session) loopFrame(st *State, li *loopInfo) []keyedTerm {
-	if s.con == nil || !s.con.HasMod || s.con.ModAll || li.modAll {
+	if s.con == nil || !s.framed() || s.con.ModAll || li.modAll {
 		return nil
 	}
 	fr := st.fr
@@ -836,7 +844,8 @@ func (s *Session) atReturn(st *State, results []Value) {
 		s.checkG(st, "post", s.obl("post#"+clauseLabel(c, i), ""), t, s.fn.Pos(), labelGroup(c.Label))
 		s.rgStable(st, "post#"+clauseLabel(c, i), t, s.fn.Pos())
 	}
-	if s.con.HasMod && !s.con.ModAll {
+	if s.framed() && !s.con.ModAll {
+		// `nomod` / `pure` on a function that is itself verified is a checked claim (= modifies nothing)
 		s.checkFrame(st, env)
 	}
 	// vacuity canary: "ensures false" must fail on at least one return path
@@ -983,4 +992,46 @@ func (P *Prog) verifyLemmas(pkgShort string) *FnResult {
 		res.VCs = append(res.VCs, s.vcs...)
 	}
 	return res
+}
+
+// recoversPanics: the function under verification defers a closure whose body calls recover().
+func (s *Session) recoversPanics() bool {
+	for _, b := range s.fn.Blocks {
+		for _, in := range b.Instrs {
+			d, ok := in.(*ssa.Defer)
+			if !ok {
+				continue
+			}
+			mc, ok := d.Call.Value.(*ssa.MakeClosure)
+			var cf *ssa.Function
+			if ok {
+				cf, _ = mc.Fn.(*ssa.Function)
+			} else if f, ok := d.Call.Value.(*ssa.Function); ok {
+				cf = f
+			}
+			if cf == nil {
+				continue
+			}
+			for _, cb := range cf.Blocks {
+				for _, ci := range cb.Instrs {
+					if c, ok := ci.(*ssa.Call); ok {
+						if bi, ok := c.Call.Value.(*ssa.Builtin); ok && bi.Name() == "recover" {
+							return true
+						}
+					}
+				}
+			}
+		}
+	}
+	return false
+}
+
+// framed: the function under verification carries a frame that is checked: an explicit modifies
+// clause, or `nomod` / `pure` (= modifies nothing). In sweep mode callees without contract havoc
+// everything, so a frame cannot be established and nomod stays an unchecked annotation there.
+func (s *Session) framed() bool {
+	if s.con == nil {
+		return false
+	}
+	return s.con.HasMod || (!s.sweep && (s.con.Flags["nomod"] || s.con.Flags["pure"]))
 }
